@@ -1513,8 +1513,11 @@ private:
 		while (mRootNode->GetCount() == 0 && !mRootNode->IsLeaf())
 		{
 			MOMO_ASSERT(mRootNode != savedNode);
-			mRootNode = mRootNode->GetChild(0);
-			mRootNode->GetParent()->Destroy(*mNodeParams);
+			Node* rootNode = mRootNode;
+			mRootNode = rootNode->GetChild(0);
+			if (node == rootNode)
+				node = mRootNode;
+			rootNode->Destroy(*mNodeParams);
 			mRootNode->SetParent(nullptr);
 		}
 		try
